@@ -302,6 +302,134 @@ fn read_through_transport(max_frame_size: usize, bytes: &[u8], cuts: &[usize]) -
     })
 }
 
+/// the size negotiated in the open exchange, applied by the connection engine: an endpoint configured with
+/// max-frame-size `local` whose peer advertises `remote` sends one pre-settled message of `size` octets;
+/// returns the sizes of the transfer frames the peer read and whether their payloads make up the message
+pub fn run_negotiated(local: u32, remote: u32, size: usize, listener: bool) -> Result<(Vec<usize>, bool, Vec<bool>), String> {
+    use crate::peer::*;
+    use fe2o3_amqp::acceptor::{ConnectionAcceptor, LinkAcceptor, LinkEndpoint, SessionAcceptor};
+    use fe2o3_amqp::{Connection, Sender, Session};
+    use fe2o3_amqp_types::messaging::{Message, Source, Target};
+    use fe2o3_amqp_types::performatives::Attach;
+    use fe2o3_amqp_types::definitions::SenderSettleMode;
+    use serde_amqp::primitives::Binary;
+    let rt = paused_runtime();
+    rt.block_on(async move {
+        let (aio, pio) = tokio::io::duplex(1 << 22);
+        let mut peer = Peer::new(pio);
+        peer.recv_timeout = Duration::from_secs(3);
+        let body: Vec<u8> = (0..size).map(|i| (i * 13 + 5) as u8).collect();
+        let b2 = body.clone();
+        let e = |x: PeerError| format!("{:?}", x);
+        let app = if listener {
+            tokio::spawn(async move {
+                let acc = ConnectionAcceptor::builder().container_id("neg").max_frame_size(local).build();
+                let mut conn = acc.accept(aio).await.map_err(|e| format!("accept: {:?}", e))?;
+                let mut session = SessionAcceptor::new().accept(&mut conn).await.map_err(|e| format!("session accept: {:?}", e))?;
+                match LinkAcceptor::new().accept(&mut session).await.map_err(|e| format!("link accept: {:?}", e))? {
+                    LinkEndpoint::Sender(mut s) => {
+                        let sendable = fe2o3_amqp::link::delivery::Sendable::builder().message(Message::from(Binary::from(b2))).settled(true).build();
+                        let _ = tokio::time::timeout(Duration::from_secs(5), s.send(sendable)).await;
+                        tokio::time::sleep(Duration::from_secs(1)).await;
+                        let _ = tokio::time::timeout(Duration::from_secs(1), s.close()).await;
+                    }
+                    LinkEndpoint::Receiver(_) => return Err("accepted a receiver".to_string()),
+                }
+                let _ = tokio::time::timeout(Duration::from_secs(1), session.on_end()).await;
+                let _ = tokio::time::timeout(Duration::from_secs(1), conn.close()).await;
+                Ok::<_, String>(())
+            })
+        } else {
+            tokio::spawn(async move {
+                let mut conn = Connection::builder().container_id("neg").max_frame_size(local).open_with_stream(aio).await.map_err(|e| format!("open: {:?}", e))?;
+                let mut session = Session::begin(&mut conn).await.map_err(|e| format!("begin: {:?}", e))?;
+                let mut s = Sender::builder().name("neg").target("q").sender_settle_mode(SenderSettleMode::Mixed).attach(&mut session).await.map_err(|e| format!("attach: {:?}", e))?;
+                let sendable = fe2o3_amqp::link::delivery::Sendable::builder().message(Message::from(Binary::from(b2))).settled(true).build();
+                let _ = tokio::time::timeout(Duration::from_secs(5), s.send(sendable)).await;
+                tokio::time::sleep(Duration::from_secs(1)).await;
+                let _ = tokio::time::timeout(Duration::from_secs(1), s.close()).await;
+                let _ = tokio::time::timeout(Duration::from_secs(1), session.end()).await;
+                let _ = tokio::time::timeout(Duration::from_secs(1), conn.close()).await;
+                Ok::<_, String>(())
+            })
+        };
+        let popen = PeerOpen { max_frame_size: remote, ..PeerOpen::default() };
+        let grant = Flow { next_incoming_id: Some(0), incoming_window: 100_000, next_outgoing_id: 0, outgoing_window: 100_000, handle: Some(Handle(0)), delivery_count: Some(0), link_credit: Some(10), available: None, drain: false, echo: false, properties: None };
+        if listener {
+            peer.send_header().await.map_err(e)?;
+            let _ = peer.recv_header().await.map_err(e)?;
+            peer.send(0, Performative::Open(popen.to_open()), &[]).await.map_err(e)?;
+            let _ = peer.recv_frame().await.map_err(e)?;
+            peer.send(0, Performative::Begin(Begin { remote_channel: None, next_outgoing_id: 0, incoming_window: 100_000, outgoing_window: 100_000, handle_max: Handle(u32::MAX), offered_capabilities: None, desired_capabilities: None, properties: None }), &[]).await.map_err(e)?;
+            let _ = peer.recv_frame().await.map_err(e)?;
+            let a = Attach { name: "neg".into(), handle: Handle(0), role: Role::Receiver, snd_settle_mode: SenderSettleMode::Mixed, rcv_settle_mode: ReceiverSettleMode::First, source: Some(Box::new(Source::default())), target: Some(Box::new(Target::default().into())), unsettled: None, incomplete_unsettled: false, initial_delivery_count: None, max_message_size: None, offered_capabilities: None, desired_capabilities: None, properties: None };
+            peer.send(0, Performative::Attach(a), &[]).await.map_err(e)?;
+            peer.send(0, Performative::Flow(grant), &[]).await.map_err(e)?;
+        } else {
+            peer.accept_open(&popen).await.map_err(e)?;
+            peer.accept_begin(0, 0, 100_000, 100_000).await.map_err(e)?;
+            peer.accept_attach(0, 0, None, ReceiverSettleMode::First).await.map_err(e)?;
+            peer.send(0, Performative::Flow(grant), &[]).await.map_err(e)?;
+        }
+        // raw frames: sizes of the transfer frames, their payloads and `more` flags
+        let mut sizes = vec![];
+        let mut mores = vec![];
+        let mut payload: Vec<u8> = vec![];
+        loop {
+            match peer.recv_raw_frame().await {
+                Ok((doff, _ty, _ch, bodyb)) => {
+                    if bodyb.is_empty() {
+                        continue;
+                    }
+                    let total = doff as usize * 4 + bodyb.len();
+                    let mut cur = std::io::Cursor::new(&bodyb[..]);
+                    let perf = {
+                        let reader = serde_amqp::read::IoReader::new(&mut cur);
+                        let mut de = serde_amqp::de::Deserializer::new(reader);
+                        Performative::deserialize(&mut de).map_err(|e| format!("decode: {}", e))?
+                    };
+                    if let Performative::Transfer(t) = perf {
+                        sizes.push(total);
+                        mores.push(t.more);
+                        payload.extend_from_slice(&bodyb[cur.position() as usize..]);
+                        if !t.more {
+                            break;
+                        }
+                    }
+                }
+                Err(_) => break,
+            }
+        }
+        drop(peer);
+        let _ = tokio::time::timeout(Duration::from_secs(30), app).await;
+        let expect = serde_amqp::to_vec(&fe2o3_amqp_types::messaging::message::__private::Serializable(Message::from(Binary::from(body)))).map_err(|e| e.to_string())?;
+        Ok((sizes, payload == expect, mores))
+    })
+}
+
+fn negotiated_sizes(report: &mut Report) {
+    for &(local, remote) in &[(512u32, 512u32), (8192, 1024), (1024, 8192), (65536, 600), (600, 65536), (4096, 4095)] {
+        for listener in [false, true] {
+            let size = 3 * local.max(remote) as usize + 17;
+            report.evaluations += 1;
+            report.count("negotiated_size_cases");
+            report.nontrivial_case(fnv(&format!("neg-{}-{}-{}", local, remote, listener)));
+            let replay = json!({"property": "C06", "module": "frame", "negotiated": {"local": local, "remote": remote, "size": size, "listener": listener}});
+            match run_negotiated(local, remote, size, listener) {
+                Ok((sizes, whole, mores)) => {
+                    let flags_ok = !mores.is_empty() && mores[..mores.len() - 1].iter().all(|m| *m) && !mores[mores.len() - 1];
+                    if let Some(big) = sizes.iter().find(|s| **s > remote as usize) {
+                        report.finding(Finding { kind: "violation", key: "frame-larger-than-the-peer-takes".into(), description: format!("{} configured with max-frame-size {} whose peer advertised {}: a transfer frame of {} octets was written (frames {:?})", if listener { "listener" } else { "client" }, local, remote, big, sizes), replay });
+                    } else if !whole || !flags_ok {
+                        report.finding(Finding { kind: "violation", key: "negotiated:payload-not-whole".into(), description: format!("{} (local {}, remote {}): frames {:?}, more flags {:?}, payloads concatenate to the message: {}", if listener { "listener" } else { "client" }, local, remote, sizes, mores, whole), replay });
+                    }
+                }
+                Err(e) => report.finding(Finding { kind: "violation", key: "negotiated:scenario-failed".into(), description: e, replay }),
+            }
+        }
+    }
+}
+
 pub fn main(opts: &Opts) {
     let mut report = Report::new(
         "C06",
@@ -313,6 +441,14 @@ pub fn main(opts: &Opts) {
     );
     if let Some(path) = &opts.replay {
         let j: J = serde_json::from_str(&std::fs::read_to_string(path).expect("read replay")).expect("json");
+        if let Some(n) = j.get("negotiated") {
+            let g = |k: &str| n.get(k).and_then(|x| x.as_u64()).unwrap_or(0);
+            let r = run_negotiated(g("local") as u32, g("remote") as u32, g("size") as usize, n.get("listener").and_then(|x| x.as_bool()).unwrap_or(false));
+            println!("{:?}", r);
+            let ok = matches!(&r, Ok((sizes, whole, _)) if *whole && sizes.iter().all(|s| *s <= g("remote") as usize));
+            println!("REPLAY: property {} on this scenario", if ok { "holds" } else { "violated" });
+            std::process::exit(if ok { 0 } else { 1 });
+        }
         let case = Case::from_json(j.get("case").unwrap_or(&j)).expect("case");
         let frame = Frame::new(case.channel, FrameBody::Transfer { performative: case.transfer(), payload: Bytes::from(case.payload()) });
         match write_through_transport(case.max_frame_size, frame) {
@@ -336,6 +472,7 @@ pub fn main(opts: &Opts) {
         }
     }
     let n_cases: u64 = if opts.thorough() { 20_000 } else { 1_500 };
+    negotiated_sizes(&mut report);
     let mut rng = Rng::new(opts.seed);
     let mut model_lines: Vec<String> = vec![];
     let mut impl_lines: Vec<String> = vec![];
